@@ -64,6 +64,11 @@ def _worker(arg):
                     cs_side = None
             except Exception:
                 cs_side = None
+        # a third state: the chain that already CONTAINS the genuine block (a node that has it sees the altered copy arrive)
+        try:
+            cs_has = cs.add_block_no_validation(node.block)
+        except Exception:
+            cs_has = None
         raw = node.block.serialize()
         if raw != node.ser:
             st['encoding_differs_from_reference'] += 1
@@ -110,6 +115,16 @@ def _worker(arg):
                 return
             st['decoded'] += 1
             second = ''
+            if cs_has is not None:
+                try:
+                    cs_has.add_block(Block.deserialize(mut), now)
+                    st['accepted'] += 1
+                    if len(bad) < 5:
+                        bad.append(('mutant-accepted-by-state-holding-the-genuine-block', "block %s (%d bytes): %s is accepted without "
+                                    "complaint by a chain state that already holds the genuine block" % ('/'.join(p), len(raw), desc), kind, p, desc))
+                    return
+                except Exception:
+                    pass
             if cs_side is not None:
                 try:
                     cs_side.add_block(Block.deserialize(mut), max(now, cs_side.head().timestamp))
